@@ -702,6 +702,10 @@ func RunC19(ctx *core.Ctx) *core.Violation {
 	if err != nil || r == nil {
 		return m.viol("open-failed", "constructor failed on intact data: %v", err)
 	}
+	if ib := r.IBinaryReader(); ib == nil || ib.Len() != m.size {
+		return m.viol("len-wrong", "IBinaryReader().Len() does not report the %d bytes of the source", m.size)
+	}
+	_ = r.InPageCache(0, int64(t.Draw(9000)))
 	cur := &brModel{r: r, id: 0}
 	all := []*brModel{cur}
 	if v := m.checkState(cur, "open"); v != nil {
